@@ -466,7 +466,7 @@ func ruleGoJoin(r *core.Reporter) {
 			r.Held(key, 1, "Add before go, Done on every exit, spawner waits before returning")
 		})
 	}
-	r.Floor("per-seed go statements", n, 4)
+	r.Floor("per-seed go statements", n, 2)
 	// tickers
 	nt := 0
 	for _, fn := range p.ModFuncs {
@@ -492,7 +492,7 @@ func ruleGoJoin(r *core.Reporter) {
 			}
 		})
 	}
-	r.Floor("tickers", nt, 5)
+	r.Floor("tickers", nt, 3)
 }
 
 func ruleBucketBound(r *core.Reporter) {
